@@ -9,6 +9,7 @@ mod c13;
 mod c11;
 mod c04;
 mod c14;
+mod c10;
 
 fn main() {
     std::panic::set_hook(Box::new(|_| {}));
@@ -44,6 +45,8 @@ fn main() {
         "c05-record" => c04::record_func(rest),
         "c14-replay" => c14::replay(rest),
         "c14-record" => c14::record(rest),
+        "c10-replay" => c10::replay(rest),
+        "c10-record" => c10::record(rest),
         x => {
             eprintln!("unknown subcommand {}", x);
             std::process::exit(2);
